@@ -320,6 +320,8 @@ def main(argv):
             nontriv.update(s['nontrivial'])
             for l, c in s['labels'].items():
                 ps.labels[l] = ps.labels.get(l, 0) + c
+                if l.startswith('excluded_known_'):
+                    excluded[l[len('excluded_known_'):]] = excluded.get(l[len('excluded_known_'):], 0) + c
             for fid, c in s['excluded'].items():
                 excluded[fid] = excluded.get(fid, 0) + c
             for c in s['samples']:
